@@ -24,13 +24,14 @@ def gen_case(rng, tag):
         cells.append((rng.randrange(5), n, f))
     pre = rng.choice([0, 0, 2, 6])
     d = os.path.join(vlib.CACHE, "tmp", "io_" + tag)
-    line = "RT " + tissue.fmt_tissue(tissue.params(), cts, cells) + " W %s %d %d" % (d, pre, rng.randrange(1 << 30))
-    return dict(line=line, dir=d, nc=nc, pre=pre, mag=mag)
+    via = rng.choice([0, 0, 1, 2])      # 0: mesh_writer::write (the simulation's path); 1, 2: write_cell_data_file called directly (path / stream overload)
+    line = "RT " + tissue.fmt_tissue(tissue.params(), cts, cells) + " W %s %d %d %d" % (d, pre, rng.randrange(1 << 30), via)
+    return dict(line=line, dir=d, nc=nc, pre=pre, mag=mag, via=via)
 
 
 def parse_driver(out):
-    if not out.startswith("OK"):
-        return None
+    if not out.startswith("OK") or "EXC" in out or "TIMEOUT" in out:
+        return None             # the writer or (after "OK | ...") the reader threw
     s = out.split("|")
     t = s[1].split(); i = 0; written = []
     while i < len(t):
@@ -127,7 +128,7 @@ def digits_ok(x, y):
 def oracle(c, written, read, tys, sec):
     if len(read) != len(written):
         return "same_number_of_cells (%d written, %d read)" % (len(written), len(read))
-    if tys != [w[0] for w in written]:
+    if c["via"] == 0 and tys != [w[0] for w in written]:
         return "same_cell_types (%s vs %s)" % ([w[0] for w in written][:8], tys[:8])
     for k, ((ty, co, fs), (rco, rfs)) in enumerate(zip(written, read)):
         if [tuple(f) for f in rfs] != [tuple(f) for f in fs]:
@@ -146,6 +147,8 @@ def oracle(c, written, read, tys, sec):
     nt, tl = sec["types"]
     if nt != len(tl) or nt != len(written):
         return "declared_counts_match (CELL_TYPES)"
+    if c["via"] != 0:
+        return None             # write_cell_data_file alone writes the geometry sections only
     if sec.get("cell_data") != len(written):
         return "declared_counts_match (CELL_DATA)"
     for name, comp, ln, vals in sec.get("fields", []):
@@ -156,7 +159,7 @@ def oracle(c, written, read, tys, sec):
 
 def run(ck):
     ncase = 60 if ck.tier == "quick" else 1500
-    ck.cov["rule"] = ("population of 1-30 real cells of all five classes (tetrahedron..icosphere level 2, mirrored copies for negative coordinates, coordinate magnitudes 1e-100..1e100, 0-6 random edge merges/splits per cell beforehand so that slots are unused before the writer's compaction) written by mesh_writer::write and read back by mesh_reader; non-trivial = cases with unused slots or more than one cell")
+    ck.cov["rule"] = ("population of 1-30 real cells of all five classes (tetrahedron..icosphere level 2, mirrored copies for negative coordinates, coordinate magnitudes 1e-100..1e100, 0-6 random edge merges/splits per cell beforehand so that slots are unused before the writer's compaction) written by mesh_writer::write or directly by either public write_cell_data_file overload (which compact the cells themselves) and read back by mesh_reader; non-trivial = cases with unused slots or more than one cell")
     ok = ck.proofs()
     if not ok:
         ck.report(dict(log=ck.proof_res["log"][-3000:]), unchecked="Properties_C16.vo", what="proof obligations of C16 no longer check")
@@ -174,7 +177,7 @@ def run(ck):
             continue
         pd = parse_driver(out)
         if pd is None:
-            fails.append((ci, "write_or_read_failed (%s)" % out[:200])); continue
+            fails.append((ci, "write_or_read_failed (%s)" % (out[:60] + " ... " + out[-200:]))); continue
         written, read, tys = pd
         try:
             text = open(os.path.join(c["dir"], "cells.vtk")).read()
@@ -207,6 +210,9 @@ def run(ck):
                 d = "CELLS section differs"
             elif ms["types"] != sec["types"]:
                 d = "CELL_TYPES section differs"
+            elif cases[ci]["via"] != 0:
+                if "cell_data" in sec:
+                    d = "geometry-only entry point wrote a CELL_DATA section"
             elif ms["cell_data"] != sec.get("cell_data"):
                 d = "CELL_DATA count differs"
             else:
@@ -223,7 +229,7 @@ def run(ck):
                     same = len(a) == len(b) and all((x == y) or (("p" in x or "x" in x) and unhx(x) == unhx(y)) for x, y in zip(a, b))
                     if not same:
                         d = "reader results differ"
-                if d is None and [int(x) for x in got_t.split()] != tys:
+                if d is None and cases[ci]["via"] == 0 and [int(x) for x in got_t.split()] != tys:
                     d = "cell types read differ"
             if d:
                 broken.append((ci, d))
@@ -233,6 +239,7 @@ def run(ck):
     ck.cov["distinct_nontrivial"] = nontriv
     ck.cov["traces_validated_against_impl"] = len(q) - len(broken)
     ck.sample(dict(cells=cases[0]["nc"], unused_slot_ops=cases[0]["pre"], coordinate_magnitude=cases[0]["mag"]), limit=1)
+    ck.cov["entry_points"] = {k: sum(1 for c in cases if c["via"] == v) for k, v in (("write", 0), ("write_cell_data_file(path)", 1), ("write_cell_data_file(stream)", 2))}
     seen = set()
     for ci, f in fails:
         key = f.split(" ")[0]
